@@ -9,6 +9,9 @@ import sys
 from pathlib import Path
 
 V = Path("/verif")
+# the checks are run against a scratch worktree of /repo (VERIF_REPO), never against /repo itself,
+# so that long runs that read /repo are not disturbed
+R = "/tmp/seedrepo"
 
 
 def sh(cmd, cwd=None, timeout=1800):
@@ -39,24 +42,26 @@ def main():
                   "demo_message": o1.strip()[-300:]}
         detect = {}
         if confirmed:
-            if subprocess.run("git -C /repo diff --quiet", shell=True).returncode != 0:
-                print("/repo dirty; abort")
+            if not Path(R).exists():
+                sh(f"git -C /repo worktree add --detach {R} HEAD")
+            if subprocess.run(f"git -C {R} diff --quiet", shell=True).returncode != 0:
+                print(f"{R} dirty; abort")
                 return 2
-            rc, o = sh(f"git -C /repo apply {patch}")
+            rc, o = sh(f"git -C {R} apply {patch}")
             try:
                 for p in [pid] + extra:
-                    rcc, oc = sh(f"./check {p} --tier quick", cwd=V, timeout=3000)
+                    rcc, oc = sh(f"VERIF_REPO={R} ./check {p} --tier quick", cwd=V, timeout=3000)
                     lines = [ln for ln in oc.splitlines() if ln.startswith(("VIOLATION", "KNOWN-FINDING")) or " quick:" in ln]
                     detect[p] = {"exit": rcc, "lines": lines[:4]}
             finally:
-                sh("git -C /repo checkout -- . && git -C /repo clean -fdq src tests")
+                sh(f"git -C {R} checkout -- . && git -C {R} clean -fdq src tests")
         d = V / "seeded" / f"{pid}-{k}"
         d.mkdir(parents=True, exist_ok=True)
         shutil.copy(patch, d / "patch.diff")
         if demo.exists():
             shutil.copy(demo, d / "demo.py")
         meta.update({"property": pid, "confirmation": result, "checks_run": detect,
-                     "how_run": "tools/process_seed.py: demo without patch, git apply, pytest, demo with patch (scratch worktree); then git -C /repo apply, ./check <id> --tier quick, git -C /repo checkout -- ."})
+                     "how_run": "tools/process_seed.py: demo without patch, git apply, pytest, demo with patch (scratch worktree); then git apply in a scratch worktree of /repo (VERIF_REPO), ./check <id> --tier quick, git checkout -- ."})
         (d / "meta.json").write_text(json.dumps(meta, indent=1))
         caught = {p: (v["exit"] == 1) for p, v in detect.items()}
         print(f"{pid}-{k}: confirmed={confirmed} caught={caught} :: {meta.get('summary', '')[:110]}")
